@@ -35,6 +35,7 @@
 #define dup2(a, b) vp_dup2(a, b)
 #define fork() vp_fork()
 #define waitpid(a, b, c) vp_waitpid(a, b, c)
+#define wait(a) vp_waitpid(-1, a, 0) /* reaps ANY child: the model rejects the non-positive pid */
 #define kill(a, b) vp_kill(a, b)
 #define poll(a, b, c) vp_poll(a, (unsigned long) (b), c)
 #define chdir(a) vp_chdir(a)
